@@ -65,7 +65,10 @@ def cases(tier, seed):
         inp = gen_input(r, {k: trees[k] for k in ("T0", "T1")}, forced[2] if forced else None)
         steps.append({"do": "hash", "path": "A"})
         steps.append({"do": "walk", "path": "A"})
-        steps.append(dict({"do": "save", "path": "A", "mode": mode, "tree": opt, "emdpath": None}, **inp))
+        sv = dict({"do": "save", "path": "A", "mode": mode, "tree": opt, "emdpath": None}, **inp)
+        if cls(mode) == "o" and old in ("emd", "foreign") and r.random() < 0.5:
+            sv["hold_open"] = True      # the old file is still open (read-only) elsewhere in the process while it is replaced
+        steps.append(sv)
         steps.append({"do": "hash", "path": "A"})
         steps.append({"do": "walk", "path": "A"})
         steps.append(dict({"do": "save", "path": "B", "mode": "w", "tree": opt, "emdpath": None}, **inp))
